@@ -5,8 +5,8 @@ import ast
 from typing import List, Set
 
 from ..collect import callee_is, inline_except, run_paths
-from ..common import calls_in, construct, where
-from ..flow import show
+from ..common import calls_in, sole_defs, construct, parents, where, with_helpers
+from ..flow import strparts, show
 from ..fold import Folder, NotConst
 from ..loader import AnalysisError, ClassInfo, FuncInfo, Program, walk_shallow
 from ..report import Report
@@ -180,10 +180,20 @@ def run(p: Program, rep: Report, tier: str) -> None:
     rep.cfg_paths += len(paths)
     first_ok = 0
     for pa in paths:
+        # the pieces of the cookie text in order: the elements the list starts with, then what is appended
         apps = [e for e in pa.events if e.kind == "call" and e.a[0] == "attr" and e.a[2] == "append"]
-        if not apps:
+        pieces = []
+        if apps and apps[0].a[1][0] == "list":
+            pieces += list(apps[0].a[1][1])
+        elif not apps and pa.exit == "return" and pa.value[0] == "call" and pa.value[2] and pa.value[2][0][0] == "list":
+            pieces += list(pa.value[2][0][1])
+        pieces += [e.b[0] for e in apps if e.b]
+        if not pieces:
             continue
-        v = apps[0].b[0]
+        v = pieces[0]
+        sp = strparts(v)
+        if sp is not None and len(sp) == 3:
+            v = ("fstr", tuple(sp))
         def q(x, attr):
             return x[0] == "call" and callee_is(x[1], "Cookie._quote", "_quote") and x[2] == (("attr", ("param", "self"), attr),)
         if v[0] == "fstr" and len(v[1]) == 3 and q(v[1][0], "name") and v[1][1] == ("const", "=") and q(v[1][2], "value"):
@@ -239,7 +249,13 @@ def run(p: Program, rep: Report, tier: str) -> None:
             if hit is None:
                 continue
             n_loc += 1
-            escaped = isinstance(hit, ast.Call) and isinstance(p.resolve_call(f_, hit), FuncInfo) and p.resolve_call(f_, hit).name == "iri_to_uri"
+            def _esc(e_: ast.AST) -> bool:
+                return isinstance(e_, ast.Call) and isinstance(p.resolve_call(f_, e_), FuncInfo) and p.resolve_call(f_, e_).name == "iri_to_uri"
+            escaped = _esc(hit)
+            if not escaped and isinstance(hit, ast.Name) and hit.id not in f_.params:
+                # a local that only ever holds iri_to_uri(...) results
+                vals = sole_defs(f_, hit.id)
+                escaped = bool(vals) and all(_esc(v_) for v_ in vals)
             if escaped:
                 rep.ok("R13.3", f"{f_.fq}: Location = iri_to_uri(...)")
             else:
@@ -254,12 +270,20 @@ def run(p: Program, rep: Report, tier: str) -> None:
     if lh is None:
         raise AnalysisError("BaseResponse.list_headers vanished")
     rep.analysed(lh.fq)
+    unit = with_helpers(p, lh)
     sources = set()
-    for n in ast.walk(lh.node):
-        if isinstance(n, ast.comprehension):
-            sources.add(ast.unparse(n.iter))
-        if isinstance(n, ast.Starred) and not isinstance(n.value, ast.GeneratorExp):
-            sources.add(ast.unparse(n.value))
+    for f_ in unit:
+        for n in ast.walk(f_.node):
+            if isinstance(n, ast.comprehension):
+                sources.add(ast.unparse(n.iter))
+            if isinstance(n, (ast.For, ast.AsyncFor)):
+                sources.add(ast.unparse(n.iter))
+            if isinstance(n, ast.Starred) and not isinstance(n.value, ast.GeneratorExp):
+                sources.add(ast.unparse(n.value))
+            if isinstance(n, ast.Call) and isinstance(n.func, ast.Name) and n.func.id in ("list", "tuple") and len(n.args) == 1 and not isinstance(n.args[0], ast.GeneratorExp):
+                sources.add(ast.unparse(n.args[0]))
+            if isinstance(n, ast.Call) and isinstance(n.func, ast.Attribute) and n.func.attr == "extend" and len(n.args) == 1 and not isinstance(n.args[0], ast.GeneratorExp):
+                sources.add(ast.unparse(n.args[0]))
     allowed = {"self.headers.items()", "self.cookies"}
     extra = sources - allowed
     if extra:
@@ -268,20 +292,46 @@ def run(p: Program, rep: Report, tier: str) -> None:
         rep.ok("R13.4", "list_headers reads exactly self.headers.items() and self.cookies")
     else:
         rep.undecide("R13.4", f"list_headers sources {sorted(sources)}")
-    # cookie lines are produced by Cookie.__str__/__bytes__ only
-    okc = all(isinstance(n, ast.Call) and isinstance(n.func, ast.Name) and n.func.id in ("str", "bytes")
-              for n in ast.walk(lh.node) if isinstance(n, ast.Call) and n.args and isinstance(n.args[0], ast.Name) and n.args[0].id == "cookie")
-    if okc:
+    # cookie lines are produced by Cookie.__str__/__bytes__ only: whatever iterates self.cookies uses the element only as str(c)/bytes(c)
+    okc, seen_c = True, 0
+    for f_ in unit:
+        for n in ast.walk(f_.node):
+            if isinstance(n, (ast.comprehension, ast.For)) and ast.unparse(n.iter) == "self.cookies" and isinstance(n.target, ast.Name):
+                cv = n.target.id
+                scope_ = n if isinstance(n, ast.For) else next((q for q in parents(n) if isinstance(q, (ast.GeneratorExp, ast.ListComp))), None)
+                if scope_ is None:
+                    okc = False
+                    continue
+                for u in ast.walk(scope_):
+                    if isinstance(u, ast.Name) and u.id == cv and isinstance(u.ctx, ast.Load):
+                        seen_c += 1
+                        par = next(iter(parents(u)), None)
+                        if not (isinstance(par, ast.Call) and isinstance(par.func, ast.Name) and par.func.id in ("str", "bytes") and par.args == [u]):
+                            okc = False
+    if okc and seen_c:
         rep.ok("R13.4", "cookie lines are str(cookie)/bytes(cookie)")
+    elif not okc:
+        rep.violation("R13.4", construct(lh, text="cookie line not str(cookie)/bytes(cookie)"), where(lh), "a Set-Cookie line is produced by something other than Cookie.__str__/__bytes__ (bypasses the escaper)")
     # set_cookie appends Cookie objects only
     sc = br.methods.get("set_cookie")
-    for c in calls_in(sc):
-        if isinstance(c.func, ast.Attribute) and c.func.attr in ("append", "extend", "insert") and ast.unparse(c.func.value) == "self.cookies":
-            a0 = c.args[-1]
-            if isinstance(a0, ast.Call) and p.resolve_call(sc, a0) is p.cls(f"{DS}:Cookie"):
-                rep.ok("R13.4", "set_cookie appends a Cookie(...) object")
-            else:
-                rep.violation("R13.4", construct(sc, c), where(sc, c), "set_cookie stores something other than a Cookie object (bypasses the escaper)")
+    sc_paths, _, _ = run_paths(p, sc, br)
+    rep.cfg_paths += len(sc_paths)
+    stored_ok = stored_bad = 0
+    for pa in sc_paths:
+        for e in pa.events:
+            if e.kind == "call" and e.a[0] == "attr" and e.a[2] in ("append", "extend", "insert") and show(e.a[1]) == "self.cookies":
+                a0 = e.b[-1] if e.b else None
+                if a0 is not None and a0[0] == "call" and callee_is(a0[1], "Cookie"):
+                    stored_ok += 1
+                else:
+                    stored_bad += 1
+                    nd = col_node = None
+                    rep.violation("R13.4", construct(sc, text=f"stores {show(a0)[:50] if a0 else '?'}"), where(sc), "set_cookie stores something other than a Cookie object (bypasses the escaper)")
+            elif e.kind == "store" and "cookies" in show(e.a):
+                stored_bad += 1
+                rep.violation("R13.4", construct(sc, text=f"rebinds {show(e.a)[:50]}"), where(sc), "set_cookie rebinds the cookie list")
+    if stored_ok and not stored_bad:
+        rep.ok("R13.4", "set_cookie appends a Cookie(...) object")
     rep.require_instances("R13.4", 3)
 
 
